@@ -356,6 +356,38 @@ def named_families():
     return fams
 
 
+def empty_oid_families():
+    """The zero-length OID (06 00): some agents answer with it (wrapping around at the end
+    of their MIB, echoing an empty name), and it is the root a caller gives to walk
+    everything.  It is an OID like any other: it never lies beyond the requested one, and
+    every OID lies below it.  (name, roots, mapping)"""
+    ins = IN[:3]
+    chain = [ROOT] + ins
+    fams = []
+    for cut in range(len(chain)):
+        m = {chain[i]: chain[i + 1] for i in range(cut)}
+        m[chain[cut]] = ()
+        fams.append(("empty-oid-at-%d" % cut, (ROOT,), m))
+    fams.append(("empty-root-echo", ((),), {(): ()}))
+    fams.append(("empty-root-wrap", ((),), {(): ins[0], ins[0]: ins[1], ins[1]: ()}))
+    fams.append(("empty-root-wrap-later", ((),), {(): BEFORE, BEFORE: ins[0], ins[0]: ins[1], ins[1]: AFTER, AFTER: ()}))
+    fams.append(("empty-root-good", ((),), {(): ins[0], ins[0]: ins[1], ins[1]: None}))
+    return fams
+
+
+EMPTY_OID_OPS = (("walk", "strict", None), ("walk", "warn", None), ("pywalk", "warn", None), ("pywalk", "strict", None), ("multiwalk", "strict", None), ("bulkwalk", "strict", 1), ("bulkwalk", "strict", 2), ("bulkwalk", "strict", 3))
+
+
+def run_empty_oid_families(R):
+    for name, roots, mapping in empty_oid_families():
+        fdesc = {"kind": "empty-oid", "name": name}
+        for op, mode, bulk in EMPTY_OID_OPS:
+            state = []
+            run_op(R, fdesc, table_f(mapping), op, mode, bulk, roots=roots, state=state)
+            run_op(R, fdesc, table_f(mapping), op, mode, bulk, roots=roots, state=state)
+        R.mon["empty_oid_families"] += 1
+
+
 def repdep_families():
     """Named repetition-dependent behaviours: (name, f)."""
     ins = IN[:4]
@@ -427,6 +459,8 @@ def sampled(R, n):
 
 def run(R):
     counter = [0]
+    if R.shard == 1 % R.nshards:
+        run_empty_oid_families(R)
     for name, mapping in named_families():
         if R.shard == 0:
             fdesc = {"kind": "named", "name": name, "map": [[list(k), list(v) if v else None] for k, v in mapping.items()]}
@@ -696,6 +730,11 @@ def replay(R, v):
             return succ0.get(oid)
 
         run_op(R, fd, f2, c["op"], c["mode"], c["bulk"], roots=tuple(tuple(r) for r in c["roots"]))
+    elif fd["kind"] == "empty-oid":
+        name, roots, mapping = next(x for x in empty_oid_families() if x[0] == fd["name"])
+        state = []
+        run_op(R, fd, table_f(mapping), c["op"], c["mode"], c["bulk"], roots=roots, state=state)
+        run_op(R, fd, table_f(mapping), c["op"], c["mode"], c["bulk"], roots=roots, state=state)
     elif fd["kind"] == "named-repdep":
         f = dict(repdep_families())[fd["name"]]
         run_op(R, fd, f, c["op"], c["mode"], c["bulk"], roots=tuple(tuple(r) for r in c["roots"]))
